@@ -211,6 +211,17 @@ fn fresh_oracle(c: &FreshCase) -> Verdict {
     let (ae, be) = (if a.contains_seed() { a.clone().expand_seed(&w.context) } else { a }, if b.contains_seed() { b.clone().expand_seed(&w.context) } else { b });
     check!(ae.poly(1) == be.poly(1), "two symmetric encryptions handed the same mask-generator state derived different masks");
     check!(ae.poly(0) != be.poly(0) || n * w.levels[0].moduli.len() < 4, "two symmetric encryptions with the same mask also share their error polynomial");
+    // public-key encryption with an explicit mask generator: only the ternary mask u comes from it, the error polynomials are
+    // fresh - two calls from the same generator state must not coincide. Observable where no rounding removes the errors:
+    // encryption directly at the key level (no switch-down by a special prime).
+    {
+        let kid = *w.context.key_parms_id();
+        let kk = w.key_moduli.len();
+        let two = catch(|| (w.encryptor.encrypt_zero_new_at_with_u_prng(&kid, &mut rng(p)), w.encryptor.encrypt_zero_new_at_with_u_prng(&kid, &mut rng(p))));
+        if let Ok((x, y)) = two { if n * kk >= 8 {
+            check!(x.poly(1) != y.poly(1) && x.poly(0) != y.poly(0), "two public-key encryptions handed the same mask-generator state are identical: the error polynomials are not fresh");
+        } }
+    }
     let a = w.keygen.create_public_key_with_u_prng(false, &mut rng(p)); let b = w.keygen.create_public_key_with_u_prng(false, &mut rng(p));
     check!(a.as_ciphertext().poly(1) == b.as_ciphertext().poly(1), "two public keys generated from the same mask-generator state have different masks");
     // seeded object expands identically in an independently built context
